@@ -22,9 +22,22 @@ import (
 	"github.com/maypok86/otter/v2/stats"
 )
 
-type manualClock struct{ now int64 }
+// manualClock is the script's clock.  `hook`, when armed, runs once inside the next NowNano call: the cache samples the
+// clock at the start of afterDeleteCall, i.e. between the loader's return and the installation of its result, so the hook
+// places operations exactly in that window from a single goroutine (C09).
+type manualClock struct {
+	now  int64
+	hook func()
+}
 
-func (c *manualClock) NowNano() int64                      { return c.now }
+func (c *manualClock) NowNano() int64 {
+	if h := c.hook; h != nil {
+		c.hook = nil
+		h()
+	}
+	return c.now
+}
+
 func (c *manualClock) Tick(time.Duration) <-chan time.Time { return make(chan time.Time) }
 
 type tbl struct {
@@ -108,6 +121,7 @@ type seqRun struct {
 	outcomes   []string
 	invIdx     int
 	nested     []string
+	afterRet   []string // operations to run between the loader's return and the installation (clock hook)
 	nestedDone bool
 	cfg        map[string]string
 	mu         *sync.Mutex
@@ -355,6 +369,20 @@ func (l scriptLoader) runNested() {
 	}
 }
 
+func (l scriptLoader) armAfterRet() {
+	r := l.r
+	if len(r.afterRet) == 0 {
+		return
+	}
+	ops := r.afterRet
+	r.afterRet = nil
+	r.clock.hook = func() {
+		for _, op := range ops {
+			r.execSimple(strings.Fields(op))
+		}
+	}
+}
+
 func (l scriptLoader) single(kind string, key int, old int) (int, error) {
 	r := l.r
 	oc := l.outcome()
@@ -365,6 +393,7 @@ func (l scriptLoader) single(kind string, key int, old int) (int, error) {
 	}
 	l.runNested()
 	r.emit("ret %s", oc)
+	l.armAfterRet()
 	p := strings.SplitN(oc, ":", 2)
 	v := 0
 	if len(p) == 2 {
@@ -409,6 +438,7 @@ func (l scriptLoader) bulk(kind string, keys []int, olds []int) (map[int]int, er
 	}
 	l.runNested()
 	r.emit("ret %s", oc)
+	l.armAfterRet()
 	p := strings.SplitN(oc, ":", 2)
 	var m map[int]int
 	if len(p) == 2 {
@@ -685,6 +715,17 @@ func joinInts(a []int) string {
 func (r *seqRun) execLoader(line string) {
 	head := line
 	r.nested = nil
+	r.afterRet = nil
+	if i := strings.Index(line, "!{"); i >= 0 {
+		body := strings.TrimSpace(strings.TrimSuffix(strings.TrimSpace(line[i+2:]), "}"))
+		for _, p := range strings.Split(body, ";") {
+			if p = strings.TrimSpace(p); p != "" {
+				r.afterRet = append(r.afterRet, p)
+			}
+		}
+		line = strings.TrimSpace(line[:i])
+		head = line
+	}
 	if i := strings.Index(line, "{"); i >= 0 {
 		head = strings.TrimSpace(line[:i])
 		body := strings.TrimSpace(strings.TrimSuffix(strings.TrimSpace(line[i+1:]), "}"))
@@ -704,6 +745,7 @@ func (r *seqRun) execLoader(line string) {
 	}
 	ld := scriptLoader{r}
 	ctx := context.Background()
+	defer func() { r.clock.hook = nil }()
 	c := r.cache
 	switch t[0] {
 	case "load":
